@@ -332,6 +332,7 @@ structure Req where
   tok : Nat          -- the fresh key it carries
   good : Bool        -- the fetch returned an SVID
   anchors : Nat      -- trust-anchor version current at the request
+  half : Int := 0    -- ghost: renewal time (half of validity) of the certificate issued, if any
   deriving DecidableEq, Repr
 
 /-- One `dir.Write` call = one complete file set `{key.pem, cert.pem, ca.pem}`. -/
@@ -363,9 +364,9 @@ def fetch (s : RN) : RN × Option Cert :=
   let k := s.nextTok
   let (r, rest) : Reply × List Reply := match s.script with | [] => (.fail, []) | r :: rest => (r, rest)
   let s1 := { s with script := rest, nextTok := k + 1 }
-  let bad : RN × Option Cert := ({ s1 with log := ⟨s.now, k, false, s.anchors⟩ :: s.log }, none)
+  let bad : RN × Option Cert := ({ s1 with log := ⟨s.now, k, false, s.anchors, 0⟩ :: s.log }, none)
   let goodR (nb na : Int) : RN × Option Cert :=
-    ({ s1 with log := ⟨s.now, k, true, s.anchors⟩ :: s.log,
+    ({ s1 with log := ⟨s.now, k, true, s.anchors, renewalTime nb na⟩ :: s.log,
                pub := if s.dirOn then ⟨k, k, s.anchors⟩ :: s.pub else s.pub }, some ⟨k, nb, na⟩)
   match r with
   | .fail => bad
@@ -419,11 +420,13 @@ def setAnchors (s : RN) (a : Nat) : RN := { s with anchors := a }
 inductive Act where
   | adv (d : Int)
   | anchors (a : Nat)
+  | toWake            -- the clock is advanced exactly to the deadline of the armed timer
   deriving Repr
 
 def act (s : RN) : Act → RN
   | .adv d => advance s d
   | .anchors a => setAnchors s a
+  | .toWake => if s.mode = .dead ∨ s.wakeAt ≤ s.now then s else advance s (s.wakeAt - s.now)
 
 /-- The states after each action of a scenario (what the driver prints and the harness compares). -/
 def runActs (s : RN) : List Act → List RN
@@ -434,6 +437,7 @@ def runActs (s : RN) : List Act → List RN
 def Act.ok : Act → Bool
   | .adv d => decide (0 < d)
   | .anchors _ => true
+  | .toWake => true
 
 /-- Most recent successful request of a log (newest first). -/
 def lastGood : List Req → Option Nat
